@@ -6,6 +6,7 @@ for d in seeded/*/; do
   [ -f $d/patch.diff ] || continue
   c=$(echo $n | grep -o 'C[0-9][0-9]' | head -1)
   case $n in C09-1|C10-2|C11-1|C13-1) continue;; esac   # superseded by the re-based …b variants
+  case "$SKIP" in *$c*) continue;; esac
   rm -f $d/run-$c-quick.log
   tools/seedtest.sh $n quick $c 2>&1 | head -1
   case $n in C09-1b) tools/seedtest.sh $n quick C10 2>&1 | head -1;; esac
